@@ -336,7 +336,7 @@ func genSortRandom(maxLen int) func(core.Source) sortCase {
 		if c.Via == "List" && n > 2000 {
 			n = n % 2000
 		}
-		c.Shape = core.Pick(s, []string{"random", "dups", "sorted", "reversed", "sawtooth", "organpipe"}, "shape")
+		c.Shape = core.Pick(s, []string{"random", "dups", "sorted", "reversed", "sawtooth", "organpipe", "sorted-but-last", "sorted-but-first", "sorted-but-one"}, "shape")
 		seed := s.Bits("fill")
 		c.Keys = make([]int, n)
 		for i := range c.Keys {
@@ -347,6 +347,19 @@ func genSortRandom(maxLen int) func(core.Source) sortCase {
 				c.Keys[i] = int(core.Mix(seed+uint64(i)) % 5)
 			case "sorted":
 				c.Keys[i] = i / 3
+			case "sorted-but-last", "sorted-but-first", "sorted-but-one":
+				// in order except for a single value: the last, the first, or one somewhere (a sorted collection
+				// that got one more value, the case an "already sorted?" shortcut must not get wrong)
+				c.Keys[i] = 10 + i/2
+				odd := n - 1
+				if c.Shape == "sorted-but-first" {
+					odd = 0
+				} else if c.Shape == "sorted-but-one" {
+					odd = int(seed % uint64(n))
+				}
+				if i == odd {
+					c.Keys[i] = int(seed>>8) % (10 + n/2 + 5)
+				}
 			case "reversed":
 				c.Keys[i] = (n - i) / 2
 			case "sawtooth":
